@@ -103,3 +103,18 @@ Proof. exact @ReadBufProofs.C12_recv_limit. Qed.
 Theorem C12_recv_dead_silent : forall (HS : Type) (ops : hpack_ops HS) chunks (st : rstate HS),
   r_dead st = true -> snd (feed_all ops st chunks) = [] /\ r_dead (fst (feed_all ops st chunks)) = true.
 Proof. exact @ReadBufProofs.dead_silent_all. Qed.
+
+(* from the initial state the reader never reaches a Rust panic and the model never runs out of fuel *)
+Theorem C12_reader_never_panics : forall (HS : Type) (ops : hpack_ops HS) hs0 max_frame max_hls chunks,
+  Forall clean_event (snd (feed_all ops (rinit hs0 max_frame max_hls) chunks)).
+Proof. exact @ReadBufProofs.reader_never_panics. Qed.
+
+(* the model's own reader parses the model's encoder output (CONTINUATION runs included) back to [f] *)
+Theorem C12_roundtrip_reader : forall smax rmax hls f,
+  42 <= smax -> smax <= MAX_MAX_FRAME_SIZE -> smax <= rmax ->
+  frame_wf smax f = true -> pp_block_nonempty f = true ->
+  continuations_needed smax f <= calc_max_continuation_frames hls rmax + 1 ->
+  exists bs,
+    encode smax f = EOk bs /\
+    map raw_event_frame (snd (feed hp_raw (rinit [] rmax hls) bs)) = [Some f].
+Proof. exact ReadBufProofs.C12_roundtrip_reader. Qed.
